@@ -578,7 +578,8 @@ WITNESSES = {
     "C02-argparse-code-default": ("argparse", REST, _ir([("arr", {"doc": "an array", "typ": "List[int]", "default": _v("str", "```foo(3)```")})])),
     "C02-argparse-return-code-quoted": ("argparse", REST, _ir([], {"doc": "the result", "typ": "List[int]", "default": _v("str", "```foo(3)```")})),
     "C02-typ-dropped-code-default": ("class", REST, _ir([("arr", {"doc": "an array", "typ": "np.ndarray", "default": _v("str", "```foo(3)```")})])),
-    "C02-fn-return-typ-dropped": ("function", dict(FN, type_annotations=False), _ir([], {"doc": "the result", "typ": "int", "default": _v("str", "K")})),
+    "C02-fn-return-typ-dropped": ("function", FN, _ir([], {"doc": "the result", "typ": "int", "default": _v("str", "```foo(3)```")})),
+    "C02-fn-return-typ-reinferred": ("function", dict(FN, type_annotations=False), _ir([], {"doc": "the result", "typ": "int", "default": _v("str", "K")})),
     "C02-fn-return-default-code-quoted": ("function", FN, _ir([], {"doc": "the result", "typ": "Tuple[int, int]", "default": _v("str", "(a, b)")})),
     "C02-complex-binop-default": ("class", REST, _ir([("z", {"doc": "a value", "typ": "complex", "default": _v("complex", "(2.5+1j)")})])),
     "C02-fn-negative-under-str-type": ("function", FN, _ir([("x", {"doc": "a value", "typ": "Union[str, int]", "default": _v("int", "-3")})])),
@@ -591,6 +592,9 @@ WITNESSES = {
     "C02-doc-google-numpydoc-descriptions": ("class", {"style": "numpydoc", "edd": False}, _ir([("n", {"doc": "a count", "typ": "int"})])),
     "C02-doc-google-numpydoc-fn-types": ("function", {"style": "numpydoc", "edd": False, "type_annotations": False, "kw_only": False}, _ir([("n", {"doc": "a count", "typ": "int"})])),
     "C02-doc-google-numpydoc-fn-return": ("function", {"style": "numpydoc", "edd": False, "type_annotations": False, "kw_only": False}, _ir([("n", {"doc": "a count", "typ": "int"})], {"doc": "the result", "typ": "int"})),
+    "C02-doc-google-numpydoc-fn-defaults": ("function", {"style": "google", "edd": True, "type_annotations": True, "kw_only": False},
+                                            _ir([("n", {"doc": "a count", "typ": "int", "default": _v("int", "5")})], {"doc": "the result", "typ": "int"})),
+    "C02-doc-layer-raises": ("function", dict(FN, edd=True, type_annotations=False), _ir([("x", {"doc": "a value", "typ": "int", "default": _v("str", "```foo(3)```")})])),
     "C02-doc-google-numpydoc-argparse-return": ("argparse", {"style": "google", "edd": False}, _ir([], {"doc": "the result", "typ": "int", "default": _v("str", "K")})),
 }
 
@@ -607,6 +611,7 @@ THEOREMS = ["C02.C02_class", "C02.C02_pydantic", "C02.C02_function", "C02.C02_ar
             "C02.argparse_none_default_dropped", "C02.C02_full_fails_argparse_none_default_dropped",
             "C02.class_typ_dropped_code_default", "C02.C02_full_fails_typ_dropped_code_default",
             "C02.function_negative_under_str_type", "C02.C02_full_fails_function_negative_under_str_type",
+            "C02.function_return_typ_reinferred", "C02.C02_full_fails_function_return_typ_reinferred",
             "C02.function_return_typ_dropped", "C02.C02_full_fails_function_return_typ_dropped",
             "C02.function_return_default_code_quoted", "C02.C02_full_fails_function_return_default_code_quoted",
             "C02.argparse_return_code_quoted", "C02.C02_full_fails_argparse_return_code_quoted"]
@@ -637,7 +642,7 @@ def run(chk: core.Check) -> int:
         if not hit:
             chk.notes.append("witness of %s no longer fails with its signature (stale finding?) — %d failures" % (wid, len(fails)))
     # ---- (2) main stream: generated interfaces x all configurations ---------------------------------------------
-    n_ir = 300 if chk.quick else 3000
+    n_ir = 300 if chk.quick else 7000
     cases = gen_cases(rng, n_ir)
     cov = collections.Counter()
     n_claimed = n_thm = n_hyp = n_in = n_main = 0
